@@ -37,6 +37,62 @@ theorem afterDefer_frame (x : Act) : Frame x x.afterDefer := by
   unfold Act.afterDefer
   split <;> exact ⟨rfl, rfl, rfl, rfl, rfl⟩
 
+theorem next_more (x : Act) (cs : List Cmd) (i : Nat) :
+    (x.next cs i).started = x.started ∧ (x.next cs i).res = x.res ∧ (x.next cs i).callRes = x.callRes ∧
+    (x.next cs i).key = x.key ∧ (x.next cs i).waitsFor = x.waitsFor := by
+  unfold Act.next
+  split
+  split <;> simp
+
+theorem fail_phase (x : Act) (r : Res) : (x.fail r).phase = .defers ∨ (x.fail r).phase = .finished := by
+  unfold Act.fail
+  by_cases h : x.stack.isEmpty = true
+  · right; simp [h]
+  · left; simp [h]
+
+theorem afterCmd_phase (x : Act) (c : Cmd) (r : Res) :
+    (x.afterCmd c r).phase = .body ∨ (x.afterCmd c r).phase = .defers ∨ (x.afterCmd c r).phase = .finished := by
+  have hn : ∀ cs i, (x.next cs i).phase = .body ∨ (x.next cs i).phase = .defers ∨ (x.next cs i).phase = .finished := by
+    intro cs i
+    rcases next_phase x cs i with h | ⟨h, _⟩ | ⟨h, _⟩
+    · exact .inl h
+    · exact .inr (.inl h)
+    · exact .inr (.inr h)
+  unfold Act.afterCmd
+  simp only
+  split
+  · exact hn _ _
+  · split
+    · exact hn _ _
+    · exact .inr (fail_phase _ _)
+  · exact .inr (fail_phase _ _)
+
+theorem afterCmd_started (x : Act) (c : Cmd) (r : Res) : (x.afterCmd c r).started = x.started := by
+  unfold Act.afterCmd
+  simp only
+  split
+  · exact (next_more x _ _).1
+  · split
+    · exact (next_more x _ _).1
+    · rfl
+  · rfl
+
+theorem afterDefer_phase (x : Act) : x.afterDefer.phase = .defers ∨ x.afterDefer.phase = .finished := by
+  unfold Act.afterDefer
+  split
+  · right; rfl
+  · rename_i i st _
+    by_cases h : st.isEmpty = true
+    · right; simp [h]
+    · left; simp [h]
+
+theorem afterDefer_fields (x : Act) :
+    x.afterDefer.regs = x.regs ∧ x.afterDefer.started = x.started ∧ x.afterDefer.res = x.res ∧
+    x.afterDefer.callRes = x.callRes ∧ x.afterDefer.idx = x.idx ∧ x.afterDefer.rest = x.rest ∧
+    x.afterDefer.exitCode = x.exitCode ∧ x.afterDefer.key = x.key ∧ x.afterDefer.waitsFor = x.waitsFor := by
+  unfold Act.afterDefer
+  split <;> simp
+
 /-- a local step changes neither the kids, the task definition, the kind nor the call mode,
 and no step leaves phase `done` -/
 theorem stepLocal_frame (F : Flags) (o : Obs) (x : Act) (ev : Ev) (y : Act) (eff : Eff)
